@@ -35,6 +35,8 @@ def _py(slot, k, s):
         "comprehension": ([f"def cp_{k}(xs):", f"    return [x * {s} for x in xs]"], 1),
         "sliceBound": ([f"def sl_{k}(xs):", f"    return xs[:{s}]"], 1),
         "unaryMinus": ([f"def um_{k}(x):", f"    return x + -{s}"], 1),
+        "upperCallArg": ([f"TOTAL_{k} = max({s}, len(__name__))"], 0),
+        "upperFuncBody": ([f"HANDLER_{k} = lambda x: x + {s}"], 0),
     }[slot]
 
 
@@ -57,6 +59,8 @@ def _ts(slot, k, s):
         "templateInterp": ([f"function ti{k}(x: number): string {{", f"  return `v ${{x * {s}}}`;", "}"], 1),
         "arrowBody": ([f"const ab{k} = (x: number): number => x + {s};"], 0),
         "ternary": ([f"function tn{k}(x: number): number {{", f"  return x ? x : {s};", "}"], 1),
+        "upperCallArg": ([f"const TOTAL_{k} = Math.max({s}, process.argv.length);"], 0),
+        "upperFuncBody": ([f"const HANDLER_{k} = (x: number): number => {{", f"  return x + {s};", "};"], 1),
     }[slot]
 
 
